@@ -153,6 +153,9 @@ func Configs(path string, level int) []Config {
 	for _, s := range subsets(prefixes) {
 		keyCfgs = append(keyCfgs, Config{KeyWhite: s}, Config{KeyBlack: s})
 	}
+	// key lists whose prefixes cover the tool's own checkpoint key (which stays excluded)
+	keyCfgs = append(keyCfgs, Config{KeyWhite: []string{"redis-"}}, Config{KeyWhite: []string{"a", "r"}}, Config{KeyWhite: []string{CheckpointKey}},
+		Config{KeyBlack: []string{"redis-shake-checkpoint-"}}, Config{KeyBlack: []string{"l"}})
 	dbCfgs := []Config{{}}
 	for _, s := range subsets(dbl) {
 		dbCfgs = append(dbCfgs, Config{DBWhite: s}, Config{DBBlack: s})
